@@ -11,6 +11,7 @@ import (
 	"pgregory.net/rapid"
 
 	"go.opentelemetry.io/collector/exporter/exporterhelper"
+	"go.opentelemetry.io/collector/pdata/pmetric"
 	"go.opentelemetry.io/collector/pdata/pprofile"
 	"go.opentelemetry.io/collector/verifharness/pgen"
 	"go.opentelemetry.io/collector/verifharness/pitems"
@@ -129,6 +130,39 @@ func overshootClass(when string) string {
 	return ""
 }
 
+// overshootSlack: bytes by which length prefixes of the enclosing messages can grow beyond what the
+// extraction budgets for (the Gauge/Sum/… wrapper is not budgeted at all): at most two per nesting level.
+const overshootSlack = 10
+
+// unexplainedOvershoot refines the size-bound signature by CAUSE.  The listed finding is an extraction that
+// appends a metric WITHOUT data points — together with a copy of its resource and scope, so the excess can be
+// as large as those — when the next metric does not fit at all, plus a few bytes of unbudgeted length prefixes.
+// A batch that is still too large once every metric without data points (and what only existed to carry it)
+// is taken out is not explained by that.
+func unexplainedOvershoot(signal, sizer string, v any, max int) string {
+	md, ok := v.(pmetric.Metrics)
+	if !ok || sizer != "bytes" {
+		return ""
+	}
+	c := pmetric.NewMetrics()
+	md.CopyTo(c)
+	c.ResourceMetrics().RemoveIf(func(rm pmetric.ResourceMetrics) bool {
+		rm.ScopeMetrics().RemoveIf(func(sm pmetric.ScopeMetrics) bool {
+			sm.Metrics().RemoveIf(func(m pmetric.Metric) bool {
+				one := pmetric.NewMetrics()
+				m.CopyTo(one.ResourceMetrics().AppendEmpty().ScopeMetrics().AppendEmpty().Metrics().AppendEmpty())
+				return one.DataPointCount() == 0
+			})
+			return sm.Metrics().Len() == 0
+		})
+		return rm.ScopeMetrics().Len() == 0
+	})
+	if sig.Size(c) > max+overshootSlack {
+		return "/not-explained-by-pointless-metrics"
+	}
+	return ""
+}
+
 func sizeOf(s *MSScript, r exporterhelper.Request) int {
 	if s.Sizer == "items" {
 		return r.ItemsCount()
@@ -173,7 +207,7 @@ func runMSInner(cMS *vt.C, s *MSScript) (nontrivial bool, f *vt.Finding) {
 		}
 		if s.Max > 0 {
 			if sz := sizeOf(s, r); sz > s.Max && sig.UnitCount(v) > 1 {
-				name := "size-bound/" + s.Sizer + "/" + s.Signal + overshootClass(when)
+				name := "size-bound/" + s.Sizer + "/" + s.Signal + overshootClass(when) + unexplainedOvershoot(s.Signal, s.Sizer, v, s.Max)
 				if s.Sizer == "bytes" {
 					over := sz - s.Max
 					b := "over>64"
